@@ -136,21 +136,45 @@ def grep_forbidden():
     return hits
 
 
-def audit(prop, modules, theorems):
-    """`#print axioms` for every registered theorem; returns dict name -> (ok, axioms or message)"""
+def audit(prop, modules, theorems, accept=False):
+    """`#print axioms` for every registered theorem; returns dict name -> (ok, axioms or message).
+    The pretty-printed *statement* of every theorem (`#check`) is also compared with the committed
+    tools/statements/<prop>.txt so that a theorem cannot be weakened quietly: a changed statement fails the
+    obligation until the file is updated deliberately (check.py --accept-statements)."""
     os.makedirs(os.path.join(BUILD, "audit"), exist_ok=True)
     path = os.path.join(BUILD, "audit", "%s_%d.lean" % (prop, os.getpid()))
     with open(path, "w") as f:
         for m in modules:
             f.write("import %s\n" % m)
+        f.write("set_option pp.proofs false\nset_option linter.all false\n")
         for t in theorems:
             f.write("#print axioms %s\n" % t)
+        for t in theorems:
+            f.write('#eval IO.println "@@STMT %s"\n#check @%s\n' % (t, t))
     with LakeLock():
         rc, out = sh(["lake", "env", "lean", path], cwd=LEAN_DIR, timeout=1800)
     os.unlink(path)
     res = {}
     # output: "'Name' depends on axioms: [a, b]" (possibly wrapped) or "'Name' does not depend on any axioms"
-    flat = re.sub(r"\s+", " ", out)
+    head = out.split("@@STMT")[0]
+    flat = re.sub(r"\s+", " ", head)
+    stmts = {}
+    for chunk in out.split("@@STMT ")[1:]:
+        name, _, body = chunk.partition("\n")
+        stmts[name.strip()] = re.sub(r"\s+", " ", body).strip()
+    spath = os.path.join(VERIF, "tools", "statements", "%s.txt" % prop)
+    known = {}
+    if os.path.exists(spath):
+        for line in open(spath):
+            if "\t" in line:
+                k, v = line.rstrip("\n").split("\t", 1)
+                known[k] = v
+    if accept or not known:
+        os.makedirs(os.path.dirname(spath), exist_ok=True)
+        with open(spath, "w") as f:
+            for t in theorems:
+                f.write("%s\t%s\n" % (t, stmts.get(t, "")))
+        known = {t: stmts.get(t, "") for t in theorems}
     for t in theorems:
         m = re.search(r"'%s' depends on axioms: \[([^\]]*)\]" % re.escape(t), flat)
         if m:
@@ -161,6 +185,11 @@ def audit(prop, modules, theorems):
             res[t] = (True, [])
         else:
             res[t] = (False, "not found in the built environment: " + out[-400:])
+            continue
+        if res[t][0] and t in known and stmts.get(t) != known[t]:
+            res[t] = (False, "statement differs from tools/statements/%s.txt (was: %s | now: %s)" % (prop, known[t][:300], stmts.get(t, "")[:300]))
+        elif res[t][0] and t not in known:
+            res[t] = (False, "no committed statement for this theorem in tools/statements/%s.txt (run check.py %s --accept-statements)" % (prop, prop))
     return res
 
 
